@@ -446,6 +446,13 @@ impl<P: Payload> State<P> {
                     if matches!(op, Op::New | Op::AppendValue(_)) && !props.contains(&"C07") {
                         props.push("C07");
                     }
+                    // a node that was never removed lost its payload / a removed one kept it (C08);
+                    // the id of the node no longer tells the truth about its removal (C06)
+                    for extra in ["C08", "C06"] {
+                        if !props.contains(&extra) {
+                            props.push(extra);
+                        }
+                    }
                     out.push(Finding::new(
                         &props,
                         format!("model/{}/liveness", kind),
@@ -505,7 +512,36 @@ impl<P: Payload> State<P> {
                         return out;
                     }
                 }
-                let p = self.arena[id].get();
+                let p = match guarded(|| {
+                    let p = self.arena[id].get();
+                    (p.tid(), p.val())
+                }) {
+                    Ok(p) => p,
+                    Err(msg) => {
+                        let mut props = vec!["C08"];
+                        for b in byop {
+                            if !props.contains(b) {
+                                props.push(b);
+                            }
+                        }
+                        out.push(Finding::new(
+                            &props,
+                            format!("model/{}/payload-read-panic", kind),
+                            format!("node {} (slot {}) is live but reading its payload panicked: {}", h, m.nodes[h].slot + 1, msg),
+                        ));
+                        return out;
+                    }
+                };
+                struct Pv(u64, u64);
+                impl Pv {
+                    fn tid(&self) -> u64 {
+                        self.0
+                    }
+                    fn val(&self) -> u64 {
+                        self.1
+                    }
+                }
+                let p = Pv(p.0, p.1);
                 if p.tid() != m.nodes[h].tid || p.val() != m.nodes[h].val {
                     let mut props = vec!["C08"];
                     for b in byop {
